@@ -1,5 +1,6 @@
 import Mustache.Proofs.RowsLive
 import Mustache.Proofs.RowsCheck
+import Mustache.Proofs.RowsPackInv
 import Mustache.Driver.World
 /-!
 # C02 — component values follow their entity through every structural change
@@ -489,12 +490,62 @@ theorem liveInv_destroyNow' (info : CompId → CompInfo) {w : WM} (h : RowInv w)
 
 example : FreeHeadNot s4 e1.id := by intro h; exact absurd (by decide) h
 
+/-! ## the deferred path -/
+
+/-- `applyCommandPack`: any pack — creation of a reserved handle, or commands on an existing one,
+destroyNow included — applied to a state where it meets `PackOK` (creation: non-null handle whose id
+owns no row, sorted mask; otherwise: the target's location, if any, is its own row) -/
+theorem rowInv_applyPack (info : CompId → CompInfo) {w : WM} (h : RowInv w) (pack : List Cmd)
+    (hp : PackOK w pack) : RowInv (w.applyPack info pack).1 :=
+  let r := applyPack_inv info h.rows h.keys pack hp
+  ⟨r.1, r.2⟩
+
+/-- `onUnlock`: the whole flush (every buffer, every pack), provided each pack meets `PackOK` in the
+state it is applied to (`PacksOK`, an inductive walk along the fold) -/
+theorem rowInv_flush (info : CompId → CompInfo) {w : WM} (h : RowInv w)
+    (hp : PacksOK info (detached w) (w.buffers.map packs).flatten) : RowInv (w.flush info).1 :=
+  let r := flush_inv info h.rows h.keys hp
+  ⟨r.1, r.2⟩
+
+/-- `unlock` at any depth -/
+theorem rowInv_unlock (info : CompId → CompInfo) {w : WM} (h : RowInv w)
+    (hp : PacksOK info (detached { w with lockDepth := w.lockDepth - 1 }) (w.buffers.map packs).flatten) :
+    RowInv (w.unlock info).1 := by
+  unfold WM.unlock
+  by_cases hd : w.lockDepth > 0
+  · simp only [hd, if_true]
+    split
+    · have h' : RowInv { w with lockDepth := w.lockDepth - 1 } :=
+        ⟨@rowsOK_congr w _ rfl rfl h.rows, @keysOK_congr w _ rfl h.keys⟩
+      exact rowInv_flush info h' hp
+    · exact ⟨@rowsOK_congr w _ rfl rfl h.rows, @keysOK_congr w _ rfl h.keys⟩
+  · simp only [hd, if_false]
+    have h0 : w.lockDepth = 0 := by omega
+    have hw : ({ w with lockDepth := w.lockDepth - 1 } : WM) = w := by
+      cases w; simp at h0 ⊢; omega
+    rw [hw] at hp
+    simp only [h0, if_true]
+    exact rowInv_flush info h hp
+
+/-- a locked section on `s4`: assign B to e1 and destroy e2, recorded, then flushed -/
+def s4locked : WM :=
+  let w := s4.lock
+  let (w, _, _) := w.assign cat 0 e1 1 (some 5)
+  (w.destroyNow cat 0 e2).1
+
+example : PackOK s4locked [Cmd.assign e1 1 (some 5)] :=
+  located_of_row (w := s4locked) (rowsOK_of_check (by decide)) (inRowAt_of_check (by decide) : InRowAt s4locked e1 2 0)
+example : ((s4locked.unlock cat).1.arch 2).rows.map (·.ent.id) = [3] ∧
+    (s4locked.unlock cat).1.getComp e1 1 = some (some 5) ∧
+    (s4locked.unlock cat).1.getComp e3 2 = some (some 33) := by decide
+
 /-! ## what is left -/
 
-/-- the deferred path: `applyCommandPack` / `flush` / the outermost `unlock` preserve `RowInv`
-(needs the slot installation of deferred creates and the pack folding; not proved here) -/
-def rowInv_flush_statement : Prop :=
-  ∀ (info : CompId → CompInfo) (w : WM), RowInv w → LiveInv w → RowInv (w.flush info).1
+/-- `PacksOK` discharged from the invariants instead of assumed: needs `LiveInv` (and the C01 facts
+about reserved handles) carried through `applyCommandPack` -/
+def liveInv_flush_statement : Prop :=
+  ∀ (info : CompId → CompInfo) (w : WM) (pack : List Cmd), RowInv w → LiveInv w → PackOK w pack →
+    LiveInv (w.applyPack info pack).1
 
 /-- `LiveInv` through the builder, shared-component and `clearArchetype` operations -/
 def liveInv_builders_statement : Prop :=
